@@ -423,6 +423,67 @@ func buildPlans(thorough bool) []plan {
 		}})
 	}
 
+	// 4d. the same with handler calls that return only when their context is cancelled: nobody opens a
+	// gate; the application's Close() must return within the harness's bound
+	for _, p := range protos {
+		st := startType(p)
+		init := msg("init", 0, "none", "")
+		subA := msg(st, 1, "doc", "sub")
+		type gs struct {
+			pre  []Label
+			gate Label
+		}
+		scripts := []gs{
+			{[]Label{init}, msg(st, 2, "doc", "query")},
+			{[]Label{init}, msg(st, 7, "doc", "sub")},
+			{[]Label{init, subA}, msg(st, 2, "doc", "query")},
+			{[]Label{init, subA, {Kind: lEmit, Src: 0}}, msg(st, 7, "doc", "sub")},
+			{[]Label{}, init},
+			{[]Label{init, subA}, init},
+		}
+		for _, s := range scripts {
+			g := s.gate
+			sc := Script{Proto: p, Labels: s.pre, Gate: &g, GateCtx: true, End: "app-close", Barrier: true}
+			plans = append(plans, plan{mode: "gatectx", make: func(*rng.R) Script { return sc }})
+		}
+	}
+	// 4e. the outgoing queue full while the server is closing: a frame that makes the server begin
+	// closing is not answered (the write loop waits 1 s and drains nothing), a source delivers events
+	// until its goroutine blocks on the queue, one more query blocks the read loop; then the write
+	// loop exits
+	for _, p := range protos {
+		st := startType(p)
+		init := msg("init", 0, "none", "")
+		subA := msg(st, 1, "doc", "sub")
+		triggers := []Label{msg("init", 0, "reject", ""), msg("terminate", 0, "none", "")}
+		if p == protoTWS {
+			triggers = append(triggers, Label{Kind: lMalformed}, msg(st, 3, "junk", ""))
+		}
+		for _, tr := range triggers {
+			for _, pre := range [][]Label{{init, subA}, {init, subA, msg(st, 2, "doc", "sub"), {Kind: lEmit, Src: 0}}} {
+				tr := tr
+				sc := Script{Proto: p, Labels: pre, Full: &tr, End: "client-close", Barrier: true}
+				plans = append(plans, plan{mode: "full", make: func(*rng.R) Script { return sc }})
+			}
+		}
+	}
+
+	// 4f. the client drops the connection while a handler call waits for the cancellation of its context:
+	// the write loop notices at the second keep-alive write after the drop (30 s); slow cases
+	for _, p := range protos {
+		st := startType(p)
+		init := msg("init", 0, "none", "")
+		g1 := msg(st, 2, "doc", "query")
+		g2 := msg(st, 7, "doc", "sub")
+		for _, sc := range []Script{
+			{Proto: p, Labels: []Label{init}, Gate: &g1, GateCtx: true, GateDrop: true, End: "drop"},
+			{Proto: p, Labels: []Label{init, msg(st, 1, "doc", "sub")}, Gate: &g2, GateCtx: true, GateDrop: true, End: "drop"},
+		} {
+			sc := sc
+			plans = append(plans, plan{mode: "gatectx", slow: true, make: func(*rng.R) Script { return sc }})
+		}
+	}
+
 	// 5. keep-alive periods: the conversation waits 15 s (+ margin) per tick label, so these few run
 	// beside the worker pool from the start and are handed out last
 	for _, p := range protos {
